@@ -208,7 +208,8 @@ def randomize(rng, ents, names=None, lasting_hint=60000.0):
             tls = sorted(rng.choice([rt(rng, False, int(lasting_hint) or 1), lasting_hint or 1.0, 0.25, e.interval, e.interval * 2 + 0.5]) for _ in range(n))
             if rng.random() < 0.15:
                 rng.shuffle(tls)
-            e.running_swords = [(rng.choice([0.0, e.interval, max(0.25, min(e.interval, rt(rng, False, 5000))), -rt(rng, True, 3000)]), float(t)) for t in tls]
+            # counters: fresh, one interval, inside the interval, overdue, and == time_left (the boundary of `counter < time_left`)
+            e.running_swords = [(rng.choice([0.0, e.interval, max(0.25, min(e.interval, rt(rng, False, 5000))), -rt(rng, True, 3000), float(t)]), float(t)) for t in tls]
     return ents
 
 
@@ -338,6 +339,8 @@ def enc_case(enc: Enc, kind, c, meth, state, payload, out, events):
         T(p["swi"]), _z(p["maxsw"]), _z(p["maxsw_r"]), dh(p["dmgx"][0], p["dmgx"][1], "exceeded"), T(p["last2"]), T(INF),
         T(p["bint"]), V(p["bdef"]), V(p["binc"]), V(p["bmax"]))
     problems = []
+    if not p["swi"] > 0:        # hypothesis of C09_adele_elapse_chunk (wf_x); with it the model never answers out-of-fuel
+        problems.append("OrderSword.interval %r is not positive (parameter condition of wf_x)" % (p["swi"],))
     ctxt = None
     if out is not None:
         evs = []
@@ -524,12 +527,16 @@ def make_ready(rng, ents):
 
 
 # ------------------------------------------------------------------ the recorded finding of this extension
-FINDING_ID = "C09-adele-order-tick-cap"
+FINDING_ID = "C09-adele-order-tick-cap"      # fixed by 4d5f5f0; its witness is replayed on every run as a regression
+NAME = "adele"
 
 
 def order_witness():
-    """AdeleOrderComponent right after an accepted use (shipped parameters of 오더 VI): elapse(100); elapse(44800) vs elapse(44900).
-    -> (still failing, detail)"""
+    """The two witnesses of C09-adele-order-tick-cap on the real AdeleOrderComponent.
+    (1) right after an accepted use (shipped parameters of 오더 VI: interval 1020, lasting 45000): elapse(100); elapse(44800)
+    vs elapse(44900) -- the old code dealt 45 vs 44 ticks and left the counter at 1000 vs -20;
+    (2) four swords over a capacity of 6: elapse(100); elapse(9900) vs elapse(10000) -- the old code dealt 31 vs 40 ticks.
+    -> (still failing, detail): failing = ticks or the remaining swords depend on the chunking."""
     from simaple.core.base import ActionStat
     from simaple.simulate.component.entity import Cooldown
     from simaple.simulate.component.specific import adele as A
@@ -543,23 +550,32 @@ def order_witness():
     if any(e["tag"] == "global.reject" for e in ev):
         return False, "the use of the witness is rejected"
     n = lambda evs: sum(1 for e in evs if e["tag"] == "global.damage")
+    sw = lambda st: [tuple(x) for x in st.order_sword.running_swords]
     s1, e1 = c.elapse(100.0, s0)
     s2, e2 = c.elapse(44800.0, s1)
     s3, e3 = c.elapse(44900.0, s0)
     detail = "after use: elapse(100)+elapse(44800) deals %d ticks, swords %s; elapse(44900) deals %d ticks, swords %s" % (
-        n(e1) + n(e2), s2.order_sword.running_swords, n(e3), s3.order_sword.running_swords)
+        n(e1) + n(e2), sw(s2), n(e3), sw(s3))
     # second facet: four swords while the restore buff (another component's entity) has run out
     s.order_sword.running_swords = [(40.0, 43000.0), (540.0, 43500.0), (20.0, 44000.0), (520.0, 44500.0)]
     t1, f1 = c.elapse(100.0, s)
-    _t2, f2 = c.elapse(9900.0, t1)
-    _t3, f3 = c.elapse(10000.0, s)
+    t2, f2 = c.elapse(9900.0, t1)
+    t3, f3 = c.elapse(10000.0, s)
     detail += "; 4 swords over a capacity of 6: elapse(100)+elapse(9900) deals %d ticks, elapse(10000) deals %d" % (n(f1) + n(f2), n(f3))
-    return (n(e1) + n(e2) != n(e3) or n(f1) + n(f2) != n(f3)), detail
+    failing = (n(e1) + n(e2) != n(e3) or sw(s2) != sw(s3) or n(f1) + n(f2) != n(f3) or sw(t2) != sw(t3))
+    return failing, detail
 
 
 def witness_replay(entry):
-    """For tools/props/c09.py once its witness_replay dispatches to extensions."""
-    return order_witness()
+    """(still_failing, detail) for an entry of KNOWN_FINDINGS.json that belongs to this extension.  entitycheck.run_prop calls
+    it for `open` entries (KNOWN-FINDING line) and for `fixed` ones (regression: still failing = the defect has returned)."""
+    m = entry.get("match", {})
+    try:
+        if m.get("component") == "AdeleOrderComponent" and m.get("reducer") == "elapse":
+            return order_witness()
+        return False, "no replay known for %r" % (m,)
+    except Exception as ex:
+        return False, "witness replay raised %r" % (ex,)
 
 
 def known_match(entry, f):
@@ -567,25 +583,27 @@ def known_match(entry, f):
     return f.get("component") == m.get("component") and f.get("reducer") == m.get("reducer")
 
 
-def handle_known(ctx):
-    """The C09 driver (tools/props/c09.py) does not consume findings of extensions yet: while the entry of this
-    extension is recorded with status `open-extension`, this module replays its witness and prints the KNOWN-FINDING
-    line itself. Once the entry is `open` the driver is in charge; once `fixed` nothing is printed (the model must follow)."""
+def known_replay(ctx):
+    """Entries of KNOWN_FINDINGS.json with "extension": "adele".  `open` and `fixed` entries are replayed by the property's
+    driver (entitycheck.run_prop: KNOWN-FINDING line / regression), so nothing is done for them here; an entry still recorded
+    as `open-extension` (not consumed by the driver) is replayed and printed by this module."""
     from lib.vf import load_known
-    es = [e for e in load_known("C09") if e.get("id") == FINDING_ID]
-    if not es or es[0].get("status") != "open-extension":
-        return
-    still, detail = order_witness()
-    if still:
-        ctx.known(es[0], detail)
-    else:
-        ctx.broken.append("known finding %s no longer reproduces on the implementation while the faithful model still has it "
-                          "(C09_adele_order_chunk_refuted)" % FINDING_ID)
+    out = []
+    for e in load_known(ctx.prop):
+        if e.get("extension") != NAME or e.get("status") != "open-extension":
+            continue
+        still, detail = witness_replay(e)
+        out.append({"id": e["id"], "still_failing": still, "detail": detail})
+        if still:
+            ctx.known(e, detail)
+        else:
+            ctx.broken.append("known finding %s (extension adele) no longer reproduces on the implementation while the faithful "
+                              "model still has it: %s" % (e["id"], detail))
+    return out
 
 
 def cases(ctx, rng, quick):
-    if ctx.prop == "C09":
-        handle_known(ctx)
+    known_replay(ctx)
     enc = Enc()
     ctx_, vtx_, info = [], [], []
     hist = collections.Counter()
